@@ -1751,6 +1751,13 @@ impl SctpInner {
     }
 
     async fn handle_init_ack(&self, chunk: Bytes) -> Result<()> {
+        // RFC 4960 5.2.3: an INIT ACK received in any state other than COOKIE-WAIT
+        // (i.e. while T1 is not retransmitting our INIT) is a duplicate and must be
+        // discarded; processing it would rewind the receive TSN state of a live
+        // association.
+        if !matches!(*self.t1_chunk.lock(), Some((CT_INIT, _, _))) {
+            return Ok(());
+        }
         self.t1_cancel();
 
         let mut buf = chunk;
